@@ -30,7 +30,10 @@ from ..atoms import Pool, atom_key, spec_key, spec_class
 PROPERTY = "C12"
 RULE = ("density: Hypothesis draws a compound derivation tree over all atom classes (element, isotope, D/T, ion, "
         "isotope ion), a density in (0, 30] and one of ten routes (density= / natural_density= keyword on a string, "
-        "a Formula, a dict or a structure; attribute assignment; '@d' '@dn' '@di' tags); oracle: density and "
+        "a Formula, a dict or a structure; attribute assignment; '@d' '@dn' '@di' tags on a compound; and, "
+        "as the group-tag family, the same three tags after a PARENTHESISED MIXTURE of 2..3 drawn components (wt%, "
+        "vol%, mass/volume or layer parts; parsed alone or as the only part of a quantity), which must also equal the "
+        "mixture built by mix_by_weight/mix_by_volume with density=/natural_density= and by attribute assignment); oracle: density and "
         "natural_density equal d or d*/ratio with ratio = sum n*(element mass - q*m_e) / sum n*(atom mass) computed "
         "in Fractions, then a generated history of 2..8 assignments (density / natural_density, "
         "values from a pool of three so that repeats are frequent) runs on the same object with both attributes checked "
@@ -467,6 +470,97 @@ def check_volume(ctx, value):
 
 
 # ----------------------------------------------------------------------
+# density tag on a parenthesised mixture: '( part // part )@d', '@di', '@dn'
+WRAPS = ["top", "mL", "nm", "g", "uL", "cm"]
+
+
+def check_group_tag(ctx, value):
+    """One more density route: the tag after a parenthesised mixture.  The
+    group is parsed on its own (percentage mixtures: the grammar accepts
+    '(...)@d' as a whole formula) or as the only part of a quantity
+    ('3mL (...)@dn', '3 nm (...)@dn': the result is the group's material), and is
+    compared with the natural-mass-ratio relation, with the same mixture built
+    by mix_by_weight / mix_by_volume with density= / natural_density=, and with
+    attribute assignment on the untagged mixture."""
+    from . import c11
+    E = env()
+    pt = E["pt"]
+    m, tag, wrap, which = value["mix"], value["tag"], value["wrap"], value["table"]
+    T = E["tables"][which]
+    if wrap == "top" and m[0] != "p":
+        wrap = "mL"          # '(5g A // 3g B)@d' alone is not accepted by the grammar (read as a repeated group)
+    ref = c11.Ref(E, T)
+    comp, _, _ = ref.mix(m)
+    comp = dict((k, v) for k, v in comp.items() if v != 0)
+    if ref.ambiguous or ref.errors or not comp:
+        ctx.count("skipped:inner mixture not judged (%s)" % (ref.ambiguous + ref.errors + ["empty"])[0])
+        return
+    group = "(" + value["pads"][0] + c11.render_mix(m) + value["pads"][1] + ")@" + tag[0] + tag[1]
+    s = group if wrap == "top" else value["q"] + (" " if value["sp"] else "") + wrap + " " + group
+    case = dict(value, kind="group-tag", string=s)
+    ratio = float(rc.natural_ratio(T, comp, E["emass"]))
+    d = float(tag[0])
+    natural = tag[1] == "n"
+    want_d = d / ratio if natural else d
+    want_n = d if natural else d * ratio
+    has_iso = any(a for _, a, _ in comp)
+    ctx.case(("g", which, s), nontrivial=(has_iso and natural),
+             sample={"string": s, "table": which},
+             cls=["family:group-tag", "route:group-tag@" + tag[1], "wrap:" + wrap, "inner:" + m[0] + m[1],
+                  "table:" + which, "group:isotopes-" + ("yes" if has_iso else "no"),
+                  "group:ions-" + ("yes" if any(c for _, _, c in comp) else "no")])
+    tol = 1e-12 + ref.slack
+    b = "c12:density:group-tag@%s" % tag[1]
+    try:
+        f = pt.formula(s, table=T)
+    except Exception as e:  # noqa
+        fr = lib_frame(e.__traceback__)
+        if fr is None:
+            raise
+        raise Violation(b + ":rejected:" + type(e).__name__, "%r raised %s: %s" % (s, type(e).__name__, str(e)[:200]), case)
+    atom_map(f, T, "c12:group-tag", case)
+    if f.density is None or not close(f.density, want_d, tol):
+        raise Violation(b + ":density", "%r: density %r expected %.17g (tag %s%s, ratio %.17g)"
+                        % (s, f.density, want_d, tag[0], tag[1], ratio), case)
+    if not close(f.natural_density, want_n, tol):
+        raise Violation(b + ":natural_density", "%r: natural_density %r expected %.17g (ratio %.17g)"
+                        % (s, f.natural_density, want_n, ratio), case)
+    # the same mixture with its density given by keyword and by attribute
+    try:
+        g = c11.build_mix(E, T, m, {"natural_density" if natural else "density": d})
+        h = c11.build_mix(E, T, m)
+    except c11.CannotBuild:
+        ctx.count("group-tag:no equivalent call")
+        return
+    if natural:
+        h.natural_density = d
+    else:
+        h.density = d
+    for how, x in (("keyword", g), ("attribute", h)):
+        if x.density is None or not close(x.density, f.density, tol) or not close(x.natural_density, f.natural_density, tol):
+            raise Violation("c12:density:group-tag@%s:differs-from-%s" % (tag[1], how),
+                            "%r: density %r natural_density %r, the same mixture with the density given by %s has %r and %r"
+                            % (s, f.density, f.natural_density, how, x.density, x.natural_density), case)
+
+
+def task_group_tag(ctx, n, depth):
+    from . import c11
+    env()
+    c11.env()
+    mixes = st.one_of(c11.pct_mix(True, depth, 3), c11.pct_mix(True, depth, 3), c11.qty_mix(True, depth, 3))
+    strat = c11.short_repr(st.fixed_dictionaries({
+        "mix": mixes,
+        "tag": st.tuples(fa.count_str(allow_none=False, max_int=25), st.sampled_from(["n", "n", "", "i"])).map(list),
+        "wrap": st.sampled_from(WRAPS + ["top"] * 3),
+        "q": st.sampled_from(["3", "0.5", "12.", "250", ".25"]),
+        "sp": st.booleans(),
+        "pads": st.sampled_from(c11.PADS),
+        "table": st.sampled_from(["public", "public", "private"]),
+    }), "group_tag_%d" % depth)
+    ctx.search("group-tag", strat, check_group_tag, n)
+
+
+# ----------------------------------------------------------------------
 # strategies
 def positive(hi=30.0):
     return st.one_of(st.floats(1e-3, hi, allow_nan=False), st.integers(1, int(hi)).map(float),
@@ -557,10 +651,12 @@ def tasks(tier):
                 ("single", task_single, dict(n=500)),
                 ("replace-a", task_replace, dict(n=600, depth=1)),
                 ("replace-b", task_replace, dict(n=600, depth=2)),
-                ("volume", task_volume, dict(n=800, depth=2))]
+                ("volume", task_volume, dict(n=800, depth=2)),
+                ("group-tag", task_group_tag, dict(n=300, depth=0))]
     out = []
-    for k in range(5):
+    for k in range(4):
         out.append(("density-%d" % k, task_density, dict(n=10000, depth=1 + k % 3)))
+    out.append(("group-tag", task_group_tag, dict(n=8000, depth=1)))
     for k in range(5):
         out.append(("replace-%d" % k, task_replace, dict(n=15000, depth=1 + k % 3)))
     for k in range(3):
@@ -578,5 +674,6 @@ EXHAUSTIVE_NOTE = ("the single-atom default is swept over every element, isotope
 
 def replay(ctx, case):
     kind = case["kind"]
-    fn = {"density": check_density, "single": check_single, "replace": check_replace, "volume": check_volume}[kind]
+    fn = {"density": check_density, "single": check_single, "replace": check_replace, "volume": check_volume,
+          "group-tag": check_group_tag}[kind]
     fn(ctx, case)
